@@ -72,9 +72,10 @@ def nesting(depth):
     yield "structlit", "struct S { x: int }\nfn main() -> int { let s: S = " + "S { x: " * depth + "1" + " }" * depth + "\n return 0 }\nshadow main { assert true }\n"
     yield "ifexpr", "fn main() -> int { let v: int = " + "if true { " * depth + "1" + " } else { 2 }" * depth + "\n return v }\nshadow main { assert true }\n"
     yield "matchnest", "union U { A { v: int } }\nfn main() -> int { let u: U = U.A { v: 1 }\n" + "match u { A(q) => { " * depth + "(println 1)" + " } }" * depth + "\n return 0 }\nshadow main { assert true }\n"
-    if depth <= 5000:      # source size grows linearly, the definitions are cheap but not free
+    if depth <= 50000:     # source size grows linearly (1.2 MB at 50000, ~10 tokens per level: under the token cap)
         yield "nested_fn", "".join("fn f%d(a: int) -> int {\n" % i for i in range(depth)) + "return a\n" + "}\n" * depth + "fn main() -> int { return 0 }\nshadow main { assert true }\n"
         yield "open_nested_fn", "".join("fn f%d(a: int) -> int {\n" % i for i in range(depth))
+    if depth <= 5000:
         yield "shadow_nest", "fn main() -> int { return 0 }\n" + "shadow main { " * depth + "assert true" + " }" * depth + "\n"
 
 
